@@ -6,6 +6,7 @@ import (
 
 	"github.com/hashicorp/hcl/v2"
 	"github.com/hashicorp/hcl/v2/hclsyntax"
+	"github.com/zclconf/go-cty/cty"
 
 	"verifharness/internal/postab"
 )
@@ -31,3 +32,5 @@ func topLevelItemRanges(f *hcl.File) []hcl.Range {
 func postabWalker(visit func(hcl.Range)) *postab.Walker {
 	return &postab.Walker{Visit: func(path string, parent reflect.Value, r hcl.Range) { visit(r) }}
 }
+
+var ctyNil = cty.NilType
